@@ -1,13 +1,18 @@
 mod alloc;
+mod bitops;
 mod core_mp;
 mod core_pp;
 mod crash;
 mod db;
 mod flock;
 mod image;
+mod seglog;
 mod iohook;
+mod ovl;
 mod stress;
+mod locksdemo;
 mod util;
+mod wal;
 
 fn arg(args: &[String], name: &str) -> Option<String> {
     args.iter().position(|a| a == name).and_then(|i| args.get(i + 1).cloned())
@@ -33,6 +38,7 @@ fn main() {
         "churn-child" => std::process::exit(crash::churn_child(&args)),
         "flock-child" => std::process::exit(flock::child(&args)),
         "stress-child" => std::process::exit(stress::child(&args)),
+        "locks-nested" => std::process::exit(locksdemo::run(&args)),
         _ => {}
     }
     let mut sink = util::Sink::new();
@@ -42,9 +48,15 @@ fn main() {
         "placement" => crash::placement(&args, &mut sink),
         "flock" => flock::run(&args, &mut sink),
         "stress" => stress::run(&args, &mut sink),
+        "locks-scenarios" => locksdemo::scenarios(&mut sink),
         "alloc-freelist" => alloc::run_freelist(seed, cases, &mut sink),
         "alloc-probe" => alloc::run_probe(seed, cases, &mut sink),
         "alloc-lookup" => alloc::run_lookup(seed, cases, &mut sink),
+        "wal" => wal::run(seed, cases, &mut sink),
+        "overlay-index" => ovl::run(seed, cases, &mut sink),
+        "bitops" => bitops::run(seed, cases, &mut sink),
+        "bitops-node" => bitops::run_nodes(seed, cases, &mut sink),
+        "seglog" => seglog::run(seed, cases, &mut sink),
         "core-pp" => core_pp::run(seed, cases, &mut sink),
         "core-mp" => core_mp::run(seed, cases, &mut sink),
         "core-mp-corpus" => {
@@ -74,6 +86,10 @@ fn main() {
             image::run(seed, cases, &mut sink, &outdir, only)
         }
         "image-leak" => image::scenario_leak(&mut sink, &outdir),
+        "image-script" => {
+            let focus = arg(&args, "--focus").unwrap_or_default();
+            image::scenario_script(&focus, &mut sink, &outdir)
+        }
         "image-branch-ops" => image::scenario_branch_ops(seed, cases, &mut sink, &outdir),
         "image-prefix-tail" => image::scenario_prefix_tail(&mut sink, &outdir),
         "image-prefix-shrink" => image::scenario_prefix_shrink(&mut sink, &outdir),
